@@ -33,7 +33,7 @@ def sworld (cfg : Auth.Cfg) (hist : List AdminOp) (logins : List String) : SWorl
 def cfgFixed : Auth.Cfg :=
   { pm := IpcHub.PathMatch.genCfg, initResets := true, tsPermDir := true, permCanonical := true,
     wsRtspChecks := true, digestShowsNewNonce := true, wspJoinChecks := true, wspPlayChecks := true,
-    accessTTL := 7200, refreshTTL := 604800,
+    identityReplaces := true, accessTTL := 7200, refreshTTL := 604800,
     noAuth := ["/api/v1/login", "/api/v1/refreshtoken", "/api/v1/runtime", "/api/v1/server"].map String.toList,
     streamQueryPrefix := "/api/v1/streams".toList }
 
@@ -50,5 +50,7 @@ def cfgWsOpen : Auth.Cfg := { cfgFixed with wsRtspChecks := false }
 def cfgStaleNonce : Auth.Cfg := { cfgFixed with digestShowsNewNonce := false }
 def cfgJoinAny : Auth.Cfg := { cfgFixed with wspJoinChecks := false }
 def cfgWspNoRecheck : Auth.Cfg := { cfgFixed with wspPlayChecks := false }
+/-- `authInterceptor` appending the verified name (`r.Header.Add`) instead of replacing (`Set`) -/
+def cfgHeaderAdd : Auth.Cfg := { cfgFixed with identityReplaces := false }
 
 end IpcHub.Auth.Witness
